@@ -34,7 +34,7 @@ desc_st = st.one_of(
 info_st = st.one_of(
     st.text("abcdefg XYZ019.,:;!?&<>'\"()-_", max_size=24),
     st.sampled_from(["", "   ", "  indented text", "trailing   ", "\xff\xfe raw bytes", "Welcome to <gopher> & co", "i looks like a type",
-                     "50% off", "100%% sure", "%(subtype)s", "{}", "info\x0bwith\x0cseparators", "info\xe2\x80\xa8line separator", "x\x1cy\x1dz", "nel\xc2\x85here"]),
+                     "50% off", "100%% sure", "%(subtype)s", "{}", "# Papers", "#2 in the series", "#", "; a note", "// x", "-- y", "! z", "info\x0bwith\x0cseparators", "info\xe2\x80\xa8line separator", "x\x1cy\x1dz", "nel\xc2\x85here"]),
 ).filter(lambda s: not s.strip().startswith("=>") and not s.strip().startswith("=:"))
 seg = st.text("abcdefghijk0123", min_size=1, max_size=5)
 TYPES = list("01345679ghIsMiT8+2")
